@@ -8,6 +8,7 @@ import (
 	"slices"
 	"strings"
 	"sync"
+	"sync/atomic"
 	"time"
 
 	"github.com/gordian-engine/gordian/gexchange"
@@ -42,6 +43,10 @@ type Connection struct {
 
 	setConsensusHandlerRequests chan setConsensusHandlerRequest
 
+	// The validator that the fixed topic validator currently dispatches to;
+	// swapped by SetConsensusHandler. Nil means ignore all messages.
+	consensusValidator atomic.Pointer[pubsub.ValidatorEx]
+
 	wg sync.WaitGroup
 
 	disconnectOnce sync.Once
@@ -51,36 +56,12 @@ type Connection struct {
 // NewConnection returns a new Connection based on
 // a host that has already joined a network.
 func NewConnection(ctx context.Context, log *slog.Logger, h *Host, codec tmcodec.MarshalCodec) (*Connection, error) {
-	consensusTopic, err := h.PubSub().Join(topicConsensus)
-	if err != nil {
-		return nil, err
-	}
-
-	consensusSub, err := consensusTopic.Subscribe()
-	if err != nil {
-		return nil, err
-	}
-
-	dhtPeer, err := dht.New(
-		ctx,
-		h.Libp2pHost(),
-
-		dht.ProtocolPrefix("/gordian"), // TODO: maybe this should not be hardcoded.
-	)
-	if err != nil {
-		return nil, fmt.Errorf("failed to create DHT peer: %w", err)
-	}
-
 	c := &Connection{
 		log: log,
 
 		codec: codec,
 
-		h:       h,
-		dhtPeer: dhtPeer,
-
-		consensusTopic: consensusTopic,
-		consensusSub:   consensusSub,
+		h: h,
 
 		outgoingProposals: make(chan tmconsensus.ProposedHeader, 1),
 
@@ -91,6 +72,44 @@ func NewConnection(ctx context.Context, log *slog.Logger, h *Host, codec tmcodec
 
 		disconnected: make(chan struct{}),
 	}
+
+	// Register the topic validator before joining the topic,
+	// because pubsub forwards messages without validation while a topic has no validator.
+	// This one validator stays registered for the lifetime of the connection;
+	// SetConsensusHandler atomically swaps what it dispatches to.
+	if err := h.PubSub().RegisterTopicValidator(topicConsensus, c.validateConsensusMessage); err != nil {
+		return nil, fmt.Errorf("failed to register consensus topic validator: %w", err)
+	}
+
+	consensusTopic, err := h.PubSub().Join(topicConsensus)
+	if err != nil {
+		_ = h.PubSub().UnregisterTopicValidator(topicConsensus)
+		return nil, err
+	}
+
+	consensusSub, err := consensusTopic.Subscribe()
+	if err != nil {
+		_ = consensusTopic.Close()
+		_ = h.PubSub().UnregisterTopicValidator(topicConsensus)
+		return nil, err
+	}
+
+	dhtPeer, err := dht.New(
+		ctx,
+		h.Libp2pHost(),
+
+		dht.ProtocolPrefix("/gordian"), // TODO: maybe this should not be hardcoded.
+	)
+	if err != nil {
+		consensusSub.Cancel()
+		_ = consensusTopic.Close()
+		_ = h.PubSub().UnregisterTopicValidator(topicConsensus)
+		return nil, fmt.Errorf("failed to create DHT peer: %w", err)
+	}
+
+	c.dhtPeer = dhtPeer
+	c.consensusTopic = consensusTopic
+	c.consensusSub = consensusSub
 
 	// Ensure that the subscriptions are ready,
 	// as their setup happens in the background.
@@ -105,10 +124,6 @@ func NewConnection(ctx context.Context, log *slog.Logger, h *Host, codec tmcodec
 
 func (c *Connection) background(ctx context.Context) {
 	defer c.wg.Done()
-
-	if err := c.h.PubSub().RegisterTopicValidator(topicConsensus, ignoreMessage); err != nil {
-		c.log.Warn("Failed to initialize consensus topic validator", "err", err)
-	}
 
 	for {
 		select {
@@ -175,39 +190,34 @@ func (c *Connection) background(ctx context.Context) {
 			}
 
 		case req := <-c.setConsensusHandlerRequests:
-			// There is always a topic validator, so unregister the previous one.
-			if err := c.h.PubSub().UnregisterTopicValidator(topicConsensus); err != nil {
-				c.log.Warn("Failed to unregister previous topic validator for consensus messages", "err", err)
-			}
-
-			// NOTE: there is a potential race right here,
-			// where we temporarily have no topic validator set,
-			// between removing and replacing it.
-			//
-			// Unfortunately it doesn't look like there is a way to atomically swap the validator,
-			// nor is there an obvious way to leave the topic and
-			// instantaneously join it while setting a validator.
-			//
-			// Perhaps the alternative is to have a fixed method as the topic validator,
-			// and use sync/atomic to swap the handler.
-
-			// Always reassign a topic validator.
+			// The registered topic validator is fixed (see NewConnection),
+			// so atomically swap the validator that it dispatches to.
+			// Unregistering and re-registering the topic validator instead
+			// would leave a moment without any validator,
+			// during which pubsub forwards incoming messages without validation.
 			if req.Handler == nil {
-				if err := c.h.PubSub().RegisterTopicValidator(topicConsensus, ignoreMessage); err != nil {
-					c.log.Warn("Failed to register consensus topic validator when clearing handler", "err", err)
-				}
+				c.consensusValidator.Store(nil)
 			} else {
-				if err := c.h.PubSub().RegisterTopicValidator(
-					topicConsensus,
-					c.libp2pConsensusMessageValidator(req.Handler),
-				); err != nil {
-					c.log.Warn("Failed to register topic validator for consensus messages", "err", err)
-				}
+				v := c.libp2pConsensusMessageValidator(req.Handler)
+				c.consensusValidator.Store(&v)
 			}
 
 			close(req.Ready)
 		}
 	}
+}
+
+// validateConsensusMessage is the one pubsub validator registered for the consensus topic.
+// It dispatches to the validator for the most recently set consensus handler,
+// or ignores the message if there is no handler.
+func (c *Connection) validateConsensusMessage(
+	ctx context.Context, id peer.ID, msg *pubsub.Message,
+) pubsub.ValidationResult {
+	v := c.consensusValidator.Load()
+	if v == nil {
+		return ignoreMessage(ctx, id, msg)
+	}
+	return (*v)(ctx, id, msg)
 }
 
 // ignoreMessage is a pubsub validator that ignores all incoming messages.
